@@ -646,4 +646,17 @@ def specMaskAny (ε : Rat) (r : Roi) (xc yc : Option (List Int)) (pre : Option A
         | some p => near ε r p || (em.2 == roiContains r p)
         | none => em.2 == false
 
+/-- With duplicated entries: the element's candidate positions do not all give the same clear answer
+(one of them is in the band, or they disagree).  On float-affected paths which occurrence "wins"
+(Python dict: the last one with a non-empty entry) can hinge on rounding noise at a degenerate
+(tangent) occurrence, so the driver does not predict the mask there.  `= specNear` for one candidate. -/
+def specAmbiguous (ε : Rat) (r : Roi) (xc yc : Option (List Int)) (pre : Option Affine) (e : Elem) : Bool :=
+  let cands := specPoints r xc yc pre e
+  let ins := cands.map fun c => match c with
+    | some p => roiContains r p
+    | none => false
+  (cands.any fun c => match c with
+    | some p => near ε r p
+    | none => false) || (ins.any id && ins.any not)
+
 end GlueVerif.C09
